@@ -1,9 +1,263 @@
+/-
+  C13 driver: answers the request lines of harness stream "c13" from the models
+  PolyVerif/Model/Nodes.lean + PolyVerif/Model/Linz.lean (core Lean only; `Std.Data.HashSet` of
+  the Lean distribution is used by the untrusted search only).
+
+    c13.seq <graph> K <call>*K
+        answer: the K responses of folding `PolyVerif.Linz.seqStep` (V := Nat) over the calls
+    c13.holds.linearizable <graph> E <event>*E
+        answer: `true` iff a linearization of the recorded history is found by the (untrusted,
+        `partial`) backtracking search AND `PolyVerif.Linz.checkWitness g0 events S` accepts it
+
+    graph := N <node>*N      node := `Q v` | `S salt ns sc*ns na (len id*len)*na`    sc := `-` | id
+    call  := `u p v` | `d p` | `a i`        resp := `ok` | `v n` | `err`
+    event := `i opid tid <call>` | `r opid <resp>`
+
+  Initial state: struct nodes cache 0, version 0, remembered none, flag false; parameters version 0.
+-/
 import Driver.Proto
+import PolyVerif.Model.Nodes
+import PolyVerif.Model.Linz
+import Std.Data.HashSet
 
 namespace Driver.C13
+open PolyVerif.Nodes PolyVerif.Linz
+
+/-! ### the concrete `Process()` of every struct node of the harness (`c13mix` in go/harness/c13.go) -/
+
+def M : Nat := 2147483647
+
+def mixScalars (h : Nat) : List (Option Nat) → List Nat → Nat × List Nat
+  | [], vs => (h, vs)
+  | none :: ps, vs => mixScalars ((h * 31 + 7) % M) ps vs
+  | some _ :: ps, v :: vs => mixScalars ((h * 31 + 11 + v) % M) ps vs
+  | some _ :: ps, [] => mixScalars ((h * 31 + 11) % M) ps []
+
+def mixElems (h : Nat) : Nat → List Nat → Nat × List Nat
+  | 0, vs => (h, vs)
+  | n+1, v :: vs => mixElems ((h * 31 + 13 + v) % M) n vs
+  | n+1, [] => mixElems ((h * 31 + 13) % M) n []
+
+def mixArrays (h : Nat) : List (List Nat) → List Nat → Nat
+  | [], _ => h
+  | a :: as, vs =>
+    let r := mixElems ((h * 37 + 5 + a.length) % M) a.length vs
+    mixArrays r.1 as r.2
+
+/-- walks the scalar ports consuming one value per connected port, then the arrays consuming
+    `len` values each -/
+def mix (salt : Nat) (sc : List (Option Nat)) (ar : List (List Nat)) (vs : List Nat) : Nat :=
+  let r := mixScalars salt sc vs
+  mixArrays r.1 ar r.2
+
+/-! ### parsing -/
+
+abbrev P := StateT (List String) Option
+
+def tok : P String := fun ts => match ts with
+  | [] => none
+  | t :: r => some (t, r)
+
+def pNat : P Nat := do
+  let t ← tok
+  match t.toNat? with
+  | some n => pure n
+  | none => failure
+
+def pOptNat : P (Option Nat) := do
+  let t ← tok
+  if t == "-" then pure none else
+  match t.toNat? with
+  | some n => pure (some n)
+  | none => failure
+
+def rep {α : Type} (p : P α) : Nat → P (List α)
+  | 0 => pure []
+  | n+1 => do let a ← p; let r ← rep p n; pure (a :: r)
+
+def pList {α : Type} (p : P α) : P (List α) := do let n ← pNat; rep p n
+
+def pNode : P (Node Nat) := do
+  let t ← tok
+  if t == "Q" then
+    let v ← pNat
+    pure (.param v 0)
+  else if t == "S" then
+    let salt ← pNat
+    let sc ← pList pOptNat
+    let ar ← pList (pList pNat)
+    pure (.struct { fn := mix salt, scalars := sc, arrays := ar, cache := 0, version := 0,
+                    remembered := none, flag := false })
+  else failure
+
+def pCall : P (Call Nat) := do
+  let t ← tok
+  match t with
+  | "u" => do let p ← pNat; let v ← pNat; pure (.update p v)
+  | "d" => do let p ← pNat; pure (.paramData p)
+  | "a" => do let i ← pNat; pure (.artifact i)
+  | _ => failure
+
+def pResp : P (Resp Nat) := do
+  let t ← tok
+  match t with
+  | "ok" => pure .ok
+  | "err" => pure .err
+  | "v" => do let n ← pNat; pure (.val n)
+  | _ => failure
+
+def pEvent : P (Event Nat) := do
+  let t ← tok
+  match t with
+  | "i" => do let id ← pNat; let tid ← pNat; let c ← pCall; pure (.inv id tid c)
+  | "r" => do let id ← pNat; let r ← pResp; pure (.resp id r)
+  | _ => failure
+
+def pEnd : P Unit := fun ts => match ts with
+  | [] => some ((), [])
+  | _ => none
+
+def respStr : Resp Nat → String
+  | .ok => "ok"
+  | .val n => s!"v {n}"
+  | .err => "err"
+
+/-! ### the model graph as a table -/
+
+/-- the graph function backed by an array (same function on `0..N-1`; the padding is a parameter) -/
+def tabulate (N : Nat) (g : Graph Nat) : Graph Nat :=
+  let arr : Array (Node Nat) := Array.ofFn (n := N) (fun j => g j.val)
+  fun j => arr[j]?.getD (.param 0 0)
+
+def ofNodes (ns : List (Node Nat)) : Graph Nat :=
+  let arr := ns.toArray
+  fun j => arr[j]?.getD (.param 0 0)
+
+/-- every dependency has a smaller id (the model's `WF`); a request violating it is malformed -/
+def wfNodes (ns : List (Node Nat)) : Bool :=
+  (ns.zipIdx).all fun (n, i) =>
+    match n with
+    | .param _ _ => true
+    | .struct s => s.deps.all (· < i)
+
+/-! ### (a) sequential lines -/
+
+def runSeq (N : Nat) : Graph Nat → List (Call Nat) → List (Resp Nat)
+  | _, [] => []
+  | g, c :: cs =>
+    let r := seqStep g c
+    r.2 :: runSeq N (tabulate N r.1) cs
+
+def handleSeq : P String := do
+  let ns ← pList pNode
+  let calls ← pList pCall
+  pEnd
+  if !wfNodes ns then failure
+  pure (" ".intercalate ((runSeq ns.length (ofNodes ns) calls).map respStr))
+
+/-! ### (b) linearization search (untrusted) + verified witness check -/
+
+structure OpRec where
+  op : LOp Nat
+  invPos : Nat
+  respPos : Nat
+
+instance : Inhabited OpRec := ⟨{ op := ⟨0, 0, .paramData 0, .err⟩, invPos := 0, respPos := 0 }⟩
+
+/-- the complete operations of a history: each invocation with its response and both positions;
+    `none` if some invocation has no (or more than one) response or ids repeat -/
+def collectOps (evs : List (Event Nat)) : Option (Array OpRec) := do
+  let idx := evs.zipIdx
+  let mut out : Array OpRec := #[]
+  for (e, k) in idx do
+    match e with
+    | .inv id tid c =>
+      if out.any (·.op.id == id) then none
+      let rs := idx.filterMap fun (e2, k2) =>
+        match e2 with
+        | .resp id2 r => if id2 == id then some (r, k2) else none
+        | _ => none
+      match rs with
+      | [(r, k2)] =>
+        if k2 < k then none
+        out := out.push { op := ⟨id, tid, c, r⟩, invPos := k, respPos := k2 }
+      | _ => none
+    | .resp id _ =>
+      if !(evs.any fun e2 => match e2 with | .inv id2 _ _ => id2 == id | _ => false) then none
+  pure out
+
+structure SearchSt where
+  failed : Std.HashSet (Nat × List Nat) := {}
+  budget : Nat
+
+/-- the parameter valuation of a state: what every response is a function of (C11 `read_fresh`) -/
+def valuation (N : Nat) (g : Graph Nat) : List Nat :=
+  (List.range N).filterMap fun j => match g j with
+    | .param v _ => some v
+    | .struct _ => none
+
+/-- depth-first search; `byResp` = the operations sorted by response position, `mask` = bit k set
+    iff `byResp[k]` is still to be placed; returns the placed indices, first to last -/
+partial def search (N : Nat) (byResp : Array OpRec) (g : Graph Nat) (mask : Nat) (acc : List Nat) :
+    StateM SearchSt (Option (List Nat)) := do
+  if mask == 0 then return some acc.reverse
+  let st ← get
+  if st.budget == 0 then return none
+  set { st with budget := st.budget - 1 }
+  let key := (mask, valuation N g)
+  if st.failed.contains key then return none
+  -- earliest response among the remaining operations
+  let mut minResp := 0
+  let mut found := false
+  for k in [0:byResp.size] do
+    if !found && mask.testBit k then
+      minResp := byResp[k]!.respPos
+      found := true
+  for k in [0:byResp.size] do
+    if mask.testBit k then
+      let o := byResp[k]!
+      if o.invPos < minResp then
+        let r := seqStep g o.op.call
+        if decide (r.2 = o.op.resp) then
+          let res ← search N byResp (tabulate N r.1) (mask ^^^ (1 <<< k)) (k :: acc)
+          if res.isSome then return res
+          if (← get).budget == 0 then return none
+  modify fun s => { s with failed := s.failed.insert key }
+  return none
+
+def searchBudget : Nat := 200000
+
+def sortByResp (ops : Array OpRec) : Array OpRec :=
+  ops.qsort (fun a b => a.respPos < b.respPos)
+
+def linearizable (ns : List (Node Nat)) (evs : List (Event Nat)) : Bool :=
+  match collectOps evs with
+  | none => false
+  | some ops =>
+    let byResp := sortByResp ops
+    let g0 := ofNodes ns
+    let N := ns.length
+    let (res, _) := (search N byResp g0 ((1 <<< byResp.size) - 1) []).run { budget := searchBudget }
+    match res with
+    | none => false
+    | some order =>
+      let S : List (LOp Nat) := order.filterMap fun k => byResp[k]?.map (·.op)
+      -- the verified check decides; the search above is only a proposal
+      checkWitness g0 evs S
+
+def handleLin : P String := do
+  let ns ← pList pNode
+  let evs ← pList pEvent
+  pEnd
+  if !wfNodes ns then failure
+  pure (Driver.boolStr (linearizable ns evs))
 
 /-- one request -> one answer line; `none` = unknown op / malformed -/
-def handle (_op : String) (_args : List String) : Option String := none
+def handle (op : String) (args : List String) : Option String :=
+  match op with
+  | "c13.seq" => (handleSeq.run args).map (·.1)
+  | "c13.holds.linearizable" => (handleLin.run args).map (·.1)
+  | _ => none
 
 end Driver.C13
 
